@@ -323,13 +323,14 @@ pub fn gen20(rng: &mut Rng, tier: &str) -> String {
             // exports: pipeline graphs, plus hand-made shapes (empty, single node, link-free, hairpins)
             let nodes = match rng.below(8) {
                 0 => "-".to_string(),
-                1 => { let l = k + rng.below(6); let v: Vec<u8> = (0..l).map(|_| rng.below(4) as u8).collect(); format!("{}:00:0", show_digits(&v)) }
+                // one node; now and then on either side of 256 bases (where `Debug` of a sequence stops printing it)
+                1 => { let l = if rng.chance(1, 2) { k + rng.below(6) } else { rng.range(250, 262).max(k) }; let v: Vec<u8> = (0..l).map(|_| rng.below(4) as u8).collect(); format!("{}:00:0", show_digits(&v)) }
                 2 => {
                     // link-free nodes with distinct ends
                     let want = rng.range(2, 4);
                     let mut seqs: Vec<Vec<u8>> = Vec::new();
                     while seqs.len() < want {
-                        let l = k + rng.below(4);
+                        let l = if rng.chance(1, 5) { rng.range(254, 258).max(k) } else { k + rng.below(4) };
                         let v: Vec<u8> = (0..l).map(|_| rng.below(4) as u8).collect();
                         let ends = |t: &Vec<u8>| (t[..k].to_vec(), t[t.len() - k..].to_vec(), crate::gr::rc_of(&t[..k]), crate::gr::rc_of(&t[t.len() - k..]));
                         let (a, b, c, d) = ends(&v);
@@ -343,6 +344,13 @@ pub fn gen20(rng: &mut Rng, tier: &str) -> String {
                     let nodes = with_graph_kmer!(k, pipe_nodes, &reads, stranded);
                     let picks: Vec<usize> = (0..6).map(|_| rng.below(1 << 20)).collect();
                     with_graph_kmer!(k, dangle_nodes, &nodes, stranded, &picks, true)
+                }
+                5 => {
+                    // a long read among the others: for K >= 8 it compresses into a node of more than 256 bases, with links
+                    let mut reads = gen_reads(rng, k, 5, 50);
+                    let l = rng.range(280, 340);
+                    reads.push((0..l).map(|_| rng.below(4) as u8).collect());
+                    with_graph_kmer!(k, pipe_nodes, &reads, stranded)
                 }
                 _ => { let reads = gen_reads(rng, k, 5, 50); with_graph_kmer!(k, pipe_nodes, &reads, stranded) }
             };
